@@ -30,7 +30,7 @@ type c30Cfg struct {
 }
 
 type c30Op struct {
-	Op    string  `json:"op"` // set rm run get has index iter save rollback imm getver delto reopen loadold overwrite proof
+	Op    string  `json:"op"` // set rm run get has index iter save rollback imm getver delto reopen loadold overwrite proof replay
 	Key   B       `json:"key"`
 	Val   B       `json:"val"`
 	N     int     `json:"n,omitempty"`    // run: number of keys
@@ -39,7 +39,7 @@ type c30Op struct {
 	Start B       `json:"start"`
 	End   B       `json:"end"`
 	Asc   bool    `json:"asc,omitempty"`
-	How   int     `json:"how,omitempty"`   // iter: 0 Iterator, 1 IterateRange, 2 Iterate; proof: mutation selector
+	How   int     `json:"how,omitempty"`   // iter: 0 Iterator, 1 IterateRange, 2 Iterate; proof: mutation selector (7: sweep of every key and gap); replay: handle selector
 	Ver   int     `json:"ver,omitempty"`   // selector into the retained versions
 	VKind int     `json:"vkind,omitempty"` // 0 retained, 1 pruned/never existed, 2 future
 	Cfg   *c30Cfg `json:"cfg,omitempty"`
@@ -97,6 +97,7 @@ func c30Draw(rt *rapid.T) c30Case {
 		"get", "has", "index", "iter", "iter",
 		"save", "save", "save", "save", "rollback",
 		"imm", "imm", "getver", "delto", "delto", "reopen", "loadold", "overwrite", "proof", "proof", "proof",
+		"replay", "replay",
 	}
 	for i := 0; i < n; i++ {
 		op := c30Op{Op: rapid.SampledFrom(kinds).Draw(rt, "op")}
@@ -114,7 +115,7 @@ func c30Draw(rt *rapid.T) c30Case {
 		case "iter":
 			op.Start, op.End, op.Asc = c30DrawBound(rt, "s"), c30DrawBound(rt, "e"), rapid.Bool().Draw(rt, "asc")
 			op.How = rapid.IntRange(0, 2).Draw(rt, "how")
-		case "imm", "getver", "loadold", "overwrite", "proof":
+		case "imm", "getver", "loadold", "overwrite", "proof", "replay":
 			op.Ver = rapid.IntRange(0, 15).Draw(rt, "ver")
 			op.VKind = rapid.SampledFrom([]int{0, 0, 0, 0, 1, 2}).Draw(rt, "vkind")
 			op.Key = c30DrawKey(rt, "k")
@@ -154,6 +155,18 @@ type c30Run struct {
 	latest       int64
 	log          [][]byte // hash after every save, in order
 	classes      map[string]bool
+	// the Set/Remove calls made since the working tree last equalled the latest saved version, and
+	// the calls that turned version lastLogVer-1 into version lastLogVer (0: not known)
+	pending    []c30Mut
+	lastLog    []c30Mut
+	lastLogVer int64
+	replayed   bool // a replay happened; replayedAt = the version that was re-executed last
+	replayedAt int64
+}
+
+type c30Mut struct {
+	del  bool
+	k, v []byte
 }
 
 func (r *c30Run) class(s string) {
@@ -494,6 +507,64 @@ func (r *c30Run) checkProofs(what string, t *iavl.ImmutableTree, m *OMap, ver in
 	return nil
 }
 
+// sweepProofs asks for the honest proof of EVERY key of a version and of a probe
+// in EVERY gap between them (and before the first / after the last key) and
+// verifies each against the version's root hash. Keys with an empty value and
+// gaps next to one are left to checkProofs (ics23 cannot express them).
+func (r *c30Run) sweepProofs(what string, t *iavl.ImmutableTree, m *OMap) error {
+	keys := m.Keys()
+	if len(keys) == 0 {
+		return nil
+	}
+	root := t.Hash()
+	empty := make([]bool, len(keys))
+	for i, k := range keys {
+		val, _ := m.Get([]byte(k))
+		if empty[i] = len(val) == 0; empty[i] {
+			continue
+		}
+		proof, err := t.GetMembershipProof([]byte(k))
+		if err != nil {
+			return fmt.Errorf("%s: proof sweep: GetMembershipProof(%q) of a present key: %v", what, k, err)
+		}
+		if !ics23.VerifyMembership(c30Spec, root, proof, []byte(k), val) {
+			return fmt.Errorf("%s: proof sweep: honest membership proof of %q=%q does not verify against the version's root %X (key %d of %d)", what, k, val, root, i, len(keys))
+		}
+	}
+	// gap i lies below keys[i]; gap len(keys) lies above the last key
+	for i := 0; i <= len(keys); i++ {
+		if (i > 0 && empty[i-1]) || (i < len(keys) && empty[i]) {
+			continue
+		}
+		var probe []byte
+		if i > 0 {
+			probe = append([]byte(keys[i-1]), 0)
+			if i < len(keys) && bytes.Compare(probe, []byte(keys[i])) >= 0 {
+				continue // adjacent keys: the gap is empty
+			}
+		} else {
+			first := []byte(keys[0])
+			switch {
+			case len(first) > 1:
+				probe = first[:len(first)-1]
+			case first[0] > 0:
+				probe = []byte{first[0] - 1}
+			default:
+				continue // nothing non-empty sorts below "\x00"
+			}
+		}
+		proof, err := t.GetNonMembershipProof(clone(probe))
+		if err != nil {
+			return fmt.Errorf("%s: proof sweep: GetNonMembershipProof(%q) of an absent key: %v", what, probe, err)
+		}
+		if !ics23.VerifyNonMembership(c30Spec, root, proof, probe) {
+			return fmt.Errorf("%s: proof sweep: honest non-membership proof of %q does not verify against the version's root %X (gap %d of %d)", what, probe, root, i, len(keys))
+		}
+	}
+	r.class("proof:sweep")
+	return nil
+}
+
 // afterLoad checks the working tree right after a LoadVersion-family call.
 // dirty = the tree had unsaved changes when the call was made.
 func (r *c30Run) afterLoad(what string, m *OMap, op c30Op, dirty bool) (resynced bool, err error) {
@@ -571,6 +642,7 @@ func (r *c30Run) run(c *c30Case, cfg c30Cfg) error {
 		}
 		r.work.Set(k, v)
 		r.unsaved = true
+		r.pending = append(r.pending, c30Mut{k: clone(k), v: clone(v)})
 		return nil
 	}
 	rmOne := func(what string, k []byte) error {
@@ -584,6 +656,7 @@ func (r *c30Run) run(c *c30Case, cfg c30Cfg) error {
 		}
 		r.work.Delete(k)
 		r.unsaved = true
+		r.pending = append(r.pending, c30Mut{del: true, k: clone(k)})
 		return nil
 	}
 	for i, op := range c.Ops {
@@ -663,6 +736,7 @@ func (r *c30Run) run(c *c30Case, cfg c30Cfg) error {
 			}
 			r.latest = ver
 			r.unsaved = false
+			r.lastLog, r.lastLogVer, r.pending = r.pending, ver, nil
 			if r.cfg.Fast {
 				r.fastRecorded, r.fastStale = ver, false
 			} else if r.fastRecorded >= 0 {
@@ -683,6 +757,7 @@ func (r *c30Run) run(c *c30Case, cfg c30Cfg) error {
 			r.tree.Rollback()
 			r.work = lastSaved()
 			r.unsaved = false
+			r.pending = nil
 		case "imm":
 			v, retained, ok := r.pickVersion(op.Ver, op.VKind)
 			if !ok {
@@ -800,6 +875,7 @@ func (r *c30Run) run(c *c30Case, cfg c30Cfg) error {
 			}
 			r.tree.Close()
 			r.work = lastSaved()
+			r.pending = nil
 			if err := r.openTree(cfg); err != nil {
 				return fmt.Errorf("%s: %v", what, err)
 			}
@@ -826,6 +902,7 @@ func (r *c30Run) run(c *c30Case, cfg c30Cfg) error {
 				return fmt.Errorf("%s: Load() after LoadVersion = %d, %v; model latest %d", what, lv, err, r.latest)
 			}
 			r.work = lastSaved()
+			r.pending = nil
 			resynced2, err := r.afterLoad(what+": tree after Load()", r.work, op, dirty && !resynced)
 			if err != nil {
 				return err
@@ -861,6 +938,13 @@ func (r *c30Run) run(c *c30Case, cfg c30Cfg) error {
 			}
 			r.latest = v
 			r.work = lastSaved()
+			r.pending = nil
+			if rolled {
+				r.lastLogVer = 0
+				if r.replayedAt > v {
+					r.replayed = false
+				}
+			}
 			if r.cfg.Fast {
 				r.fastRecorded, r.fastStale = v, false
 			} else if r.fastRecorded >= 0 && rolled {
@@ -889,6 +973,94 @@ func (r *c30Run) run(c *c30Case, cfg c30Cfg) error {
 			if err := r.checkProofs(fmt.Sprintf("%s: version %d", what, v), t, m, v, op); err != nil {
 				return err
 			}
+			if op.How == 7 {
+				if err := r.sweepProofs(fmt.Sprintf("%s: version %d", what, v), t, m); err != nil {
+					return err
+				}
+			}
+		case "replay":
+			// Crash-recovery style reload: go back to the version before the latest one, execute
+			// the Set/Remove calls of the latest version again and save. The version already
+			// exists; the same history must give the same root hash, which SaveVersion documents
+			// as idempotent ("the same hash means idempotent (i.e. no-op)"). The history then
+			// continues on this handle.
+			base := r.latest - 1
+			mb, okb := r.saved.Get(base)
+			ml, okl := r.saved.Get(r.latest)
+			if base < 1 || !okb || !okl || r.lastLogVer != r.latest {
+				break
+			}
+			fresh := op.How % 3
+			if fresh == 2 && r.cfg.Fast && (r.fastRecorded != r.latest || r.fastStale) {
+				fresh = 1 // the on-disk fast index is not the one of the latest version: let Load() rebuild it first
+			}
+			switch fresh {
+			case 0: // on the live handle
+				if r.unsaved {
+					r.tree.Rollback()
+				}
+			case 1: // new handle, Load() the latest version first
+				r.tree.Close()
+				if err := r.openTree(r.cfg); err != nil {
+					return fmt.Errorf("%s: %v", what, err)
+				}
+			case 2: // new handle that goes straight to the previous version
+				r.tree.Close()
+				r.tree = iavl.NewMutableTree(r.db, r.cfg.Cache, !r.cfg.Fast, iavl.NewNopLogger())
+			}
+			r.unsaved, r.pending = false, nil
+			if _, err := r.tree.LoadVersion(base); err != nil {
+				return fmt.Errorf("%s: LoadVersion(%d) of a retained version (handle kind %d): %v", what, base, fresh, err)
+			}
+			r.work = mb.Clone()
+			if _, err := r.afterLoad(fmt.Sprintf("%s: tree after LoadVersion(%d)", what, base), r.work, op, false); err != nil {
+				return err
+			}
+			for _, mu := range r.lastLog {
+				var err error
+				if mu.del {
+					err = rmOne(what+": replay", mu.k)
+				} else {
+					err = setOne(what+": replay", mu.k, mu.v)
+				}
+				if err != nil {
+					return err
+				}
+			}
+			r.pending = nil
+			if err := r.checkReads(what+": working tree after re-executing the latest version", r.tree, ml, op); err != nil {
+				return err
+			}
+			want := r.hashes[r.latest]
+			if wh := r.tree.WorkingHash(); !bytes.Equal(wh, want) {
+				return fmt.Errorf("%s: re-executing the %d calls of version %d on top of version %d gives WorkingHash %X, the version was saved as %X: the hash is not a function of the history", what, len(r.lastLog), r.latest, base, wh, want)
+			}
+			hash, ver, err := r.tree.SaveVersion()
+			if err != nil || ver != r.latest || !bytes.Equal(hash, want) {
+				return fmt.Errorf("%s: SaveVersion after re-executing version %d = (%X, %d, %v), expected the idempotent answer (%X, %d)", what, r.latest, hash, ver, err, want, r.latest)
+			}
+			r.work = ml.Clone()
+			// the idempotent branch of SaveVersion leaves the replayed unsaved fast-node changes in
+			// place (equal to the saved contents); a later LoadVersion of another version keeps
+			// serving them, which is the known LoadVersion finding
+			r.unsaved = r.cfg.Fast && len(r.lastLog) > 0
+			if h := r.tree.Hash(); !bytes.Equal(h, want) {
+				return fmt.Errorf("%s: Hash() = %X after the idempotent save of version %d, saved as %X", what, h, r.latest, want)
+			}
+			for _, o := range []c30Op{op, {Asc: true}} {
+				if err := r.checkReads(what+": working tree after the idempotent save", r.tree, r.work, o); err != nil {
+					return err
+				}
+			}
+			t, err := r.tree.GetImmutable(r.latest)
+			if err != nil {
+				return fmt.Errorf("%s: GetImmutable(%d) after the idempotent save: %v", what, r.latest, err)
+			}
+			if err := r.sweepProofs(fmt.Sprintf("%s: version %d after the idempotent save", what, r.latest), t, ml); err != nil {
+				return err
+			}
+			r.class(fmt.Sprintf("replay:handle-kind-%d", fresh))
+			r.replayed, r.replayedAt = true, r.latest
 		}
 		// cheap invariants after every op
 		if sz := r.tree.Size(); sz != int64(r.work.Len()) {
@@ -914,6 +1086,13 @@ func (r *c30Run) run(c *c30Case, cfg c30Cfg) error {
 		}
 		if h := t.Hash(); !bytes.Equal(h, r.hashes[v]) {
 			return fmt.Errorf("final: version %d hashes to %X, saved as %X", v, h, r.hashes[v])
+		}
+		// every key and every gap of every retained version has a verifying honest proof
+		if err := r.sweepProofs(fmt.Sprintf("final: version %d", v), t, m); err != nil {
+			return err
+		}
+		if r.replayed && v > r.replayedAt {
+			r.class("replay:version-saved-afterwards-proof-swept")
 		}
 	}
 	return r.sameVersions("final")
@@ -956,7 +1135,7 @@ func c30Exec(ctx *vk.Ctx, c c30Case) error {
 	return nil
 }
 
-const c30Rule = "rapid: configuration (node cache 0/1/8/10000, fast storage on/off), a twin configuration, and 10-100 ops over a MutableTree on memdb: set/remove of non-empty keys (short strings over {00,'a','b',FF} and numeric keys in dense clusters), sequential runs of 3-40 sets/removes (strides 1,-1,2,7), get/has/index reads, iterators (Iterator, IterateRange, Iterate; generated bounds, both directions), SaveVersion, Rollback, GetImmutable/GetVersioned of retained, pruned and future versions, DeleteVersionsTo (valid and >= latest), close+reopen with another configuration, LoadVersion of an old version, LoadVersionForOverwriting, ics23 membership/non-membership proofs with wrong value/key/root, transplanted and bit-flipped/truncated proofs; the whole history is replayed under the twin configuration and every root hash must agree; non-trivial = at least two saved versions and a read of an old version, a version deletion/overwrite, or a proof check"
+const c30Rule = "rapid: configuration (node cache 0/1/8/10000, fast storage on/off), a twin configuration, and 10-100 ops over a MutableTree on memdb: set/remove of non-empty keys (short strings over {00,'a','b',FF} and numeric keys in dense clusters), sequential runs of 3-40 sets/removes (strides 1,-1,2,7), get/has/index reads, iterators (Iterator, IterateRange, Iterate; generated bounds, both directions), SaveVersion, Rollback, GetImmutable/GetVersioned of retained, pruned and future versions, DeleteVersionsTo (valid and >= latest), close+reopen with another configuration, LoadVersion of an old version, LoadVersionForOverwriting, crash-recovery style replay (LoadVersion(latest-1) on the live handle / a reopened handle / a new handle, the Set/Remove calls of the latest version executed again, idempotent SaveVersion, history continues), ics23 membership/non-membership proofs with wrong value/key/root, transplanted and bit-flipped/truncated proofs, honest-proof sweeps over every key and gap (on request, after a replay, and of every retained version at the end); the whole history is replayed under the twin configuration and every root hash must agree; non-trivial = at least two saved versions and a read of an old version, a version deletion/overwrite, or a proof check"
 
 func TestC30_Tree(t *testing.T) {
 	vk.Run(t, vk.Spec[c30Case]{ID: "C30", Name: "TestC30_Tree", Rule: c30Rule, Draw: c30Draw, Exec: c30Exec})
